@@ -8,6 +8,14 @@ props = sys.argv[2:]
 d = "/verif/seeded/" + name
 assert subprocess.run(["git", "-C", "/repo", "status", "--porcelain", "--untracked-files=no"], capture_output=True, text=True).stdout.strip() == "", "/repo not clean"
 res = {}
+# the checks below run against a modified /repo: whatever they write to evidence/ describes the seeded
+# change, not the tree; keep the committed evidence files and put them back afterwards
+import shutil, tempfile
+_keep = tempfile.mkdtemp(prefix="evidence-keep-")
+for p in props:
+    f = "/verif/evidence/%s.json" % p
+    if os.path.exists(f):
+        shutil.copy(f, os.path.join(_keep, p + ".json"))
 try:
     subprocess.run(["git", "-C", "/repo", "apply", d + "/patch.diff"], check=True)
     for p in props:
@@ -18,6 +26,11 @@ try:
         print(p, r.returncode, " | ".join(l[:200] for l in lines[-2:]))
 finally:
     subprocess.run(["git", "-C", "/repo", "checkout", "--", "."], check=True)
+    for p in props:
+        f = os.path.join(_keep, p + ".json")
+        if os.path.exists(f):
+            shutil.copy(f, "/verif/evidence/%s.json" % p)
+    shutil.rmtree(_keep, ignore_errors=True)
     subprocess.run(["python3", "/verif/tools/gen_consts.py"], cwd="/verif", capture_output=True)
 m = json.load(open(d + "/meta.json"))
 allres = m.get("checks_run") or {}
